@@ -135,6 +135,12 @@ Definition projectQ (o : Opts) (hasQuats : bool) (pentry qentry : T) (nrm back :
 Definition stateChanged (r : Result) (qchg : bool) : bool :=
   match r_where r with AtEntry => r_quatNormalized r && qchg | _ => true end.
 
+(** The position-error norm of the state that is actually returned.  The control logic computes [r_pnorm] BEFORE it
+    calls normalizeQuaternions and never looks again (code comment: "normalization of quaternions can't have any effect
+    on the constraints we just fixed"); [pAfter] is the norm the normalised state really has -- one more oracle, which
+    the code does not consult. *)
+Definition true_pnorm (r : Result) (pAfter : T) : T := if r_quatNormalized r then pAfter else r_pnorm r.
+
 (** ------------------------------------------------------------------ System::project(state, accuracy)
     = prescribeQ; projectQ; prescribeU; projectU with default options (no DontThrow): the velocity projection is
     reached only if the position projection returned (did not throw); Some (rq, None) = projectQ threw. *)
